@@ -5,7 +5,7 @@
    fmp4.Parts.Unmarshal and mpegts.Reader hand to the repo's code), not over bytes.
 
    Transcribed Go (names kept):
-     client_primary_downloader.go   checkSupport, pickLeadingPlaylist, getRenditionsByGroup,
+     client_primary_downloader.go   checkSupport (incl. av01. / vp09., fix 8f9d4a5), pickLeadingPlaylist, getRenditionsByGroup,
                                     clientPrimaryDownloader.run (variant / rendition handling,
                                     track collection, setTracks / OnTracks)
      client_stream_downloader.go    findSegmentWithInvPosition, findSegmentWithID,
@@ -469,6 +469,9 @@ Fixpoint parts_loop (rep : bool) (procs : list (Z * tproc)) (c : option conv) (e
       parts_loop rep procs c elapsed r (fst x) (snd x)
   end.
 
+Definition parts_empty (parts : list part) : bool :=
+  forallb (fun p : part => match p with [] => true | _ :: _ => false end) parts.
+
 (* processSegment for a non-nil segment *)
 Definition fmp4_processSegment (p : fsp) (c : option conv) (elapsed : Z) (seg : fseg)
            (counts : list nat) : res (fsp * option conv * list nat) :=
@@ -476,7 +479,13 @@ Definition fmp4_processSegment (p : fsp) (c : option conv) (elapsed : Z) (seg : 
   | None => Err ESegParse
   | Some parts =>
       match findFirstPartTrackOfLeadingTrack parts (f_leadingTrackID p) with
-      | None => Err ENoLeadingData
+      | None =>
+          (* empty := every part has len(part.Tracks) == 0; such a segment / Low-Latency part (a rendition into
+             which no sample fell) is skipped - but not by a leading stream that has not created the time
+             converter yet: the renditions wait for it *)
+          if parts_empty parts && (negb (f_isLeading p) || match f_procs p with Some _ => true | None => false end)
+          then Ok (p, c, counts)
+          else Err ENoLeadingData
       | Some lpt =>
           pc <- (match f_procs p with
                  | None => fmp4_initializeTrackProcessors p c lpt
@@ -727,7 +736,8 @@ Definition structural_ok (pl : uplaylist) : bool :=
 Definition has_prefix (p s : string) : bool := String.prefix p s.
 Definition codec_supported (codec : string) : bool :=
   has_prefix "avc1." codec || has_prefix "hvc1." codec || has_prefix "hev1." codec
-  || has_prefix "mp4a." codec || String.eqb codec "opus".
+  || has_prefix "mp4a." codec || has_prefix "av01." codec || has_prefix "vp09." codec
+  || String.eqb codec "opus".
 Definition checkSupport (codecs : list string) : bool := forallb codec_supported codecs.
 
 (* pickLeadingPlaylist: for _, v := range variants { v.Codecs ... } *)
